@@ -63,6 +63,14 @@ def generate(streams: core.Streams, tier: str) -> dict:
         if gen.chance(w, 0.3):
             d["name"] = f"rule_{i}"
         docs.append(d)
+    # a rule that occurs twice, the copies differing only in a custom attribute (equal by value)
+    if n >= 2 and gen.chance(w, 0.12):
+        src = w.randrange(len(docs))
+        twin = copy.deepcopy(docs[src])
+        twin["custom_twin"] = "second copy"
+        twin.pop("id", None)
+        twin.pop("name", None)
+        docs.insert(w.randint(0, len(docs)), twin)
     # natural fault kinds written into documents
     for d in docs:
         r = f.random()
